@@ -14,6 +14,7 @@ from .numpy_vjps import (
     nograd_functions,
     power_base_guard,
     replace_zero,
+    sinc_derivative,
     tensordot_adjoint_0,
     tensordot_adjoint_1,
     untake,
@@ -141,10 +142,7 @@ defjvp(anp.arccosh, lambda g, ans, x: g / anp.sqrt(x**2 - 1))
 defjvp(anp.arctanh, lambda g, ans, x: g / (1 - x**2))
 defjvp(anp.square, lambda g, ans, x: g * 2 * x)
 defjvp(anp.sqrt, lambda g, ans, x: g * 0.5 * x**-0.5)
-defjvp(
-    anp.sinc,
-    lambda g, ans, x: g * (anp.cos(anp.pi * x) * anp.pi * x - anp.sin(anp.pi * x)) / (anp.pi * x**2),
-)
+defjvp(anp.sinc, lambda g, ans, x: g * sinc_derivative(x))
 defjvp(anp.clip, lambda g, ans, x, a_min, a_max: g * anp.logical_and(ans != a_min, ans != a_max))
 defjvp(anp.real_if_close, lambda g, ans, x: match_complex(ans, g))
 defjvp(anp.real, lambda g, ans, x: anp.real(g))
